@@ -15,6 +15,7 @@ import (
 	"bytes"
 	"context"
 	"encoding/json"
+	"errors"
 	"fmt"
 	"os"
 
@@ -219,6 +220,14 @@ func (db *DB) basicExport(ctx context.Context, config *client.BackupConfig) (err
 
 		firstDoc := true
 		for docResultWithID := range docIDsCh {
+			doc, err := col.Get(ctx, docResultWithID.ID, false)
+			if errors.Is(err, client.ErrDocumentNotFoundOrNotAuthorized) {
+				// the identifiers include those of deleted documents, which are not part of a backup
+				continue
+			}
+			if err != nil {
+				return err
+			}
 			if firstDoc {
 				firstDoc = false
 			} else {
@@ -227,10 +236,6 @@ func (db *DB) basicExport(ctx context.Context, config *client.BackupConfig) (err
 				if err != nil {
 					return err
 				}
-			}
-			doc, err := col.Get(ctx, docResultWithID.ID, false)
-			if err != nil {
-				return err
 			}
 
 			isSelfReference := false
